@@ -180,7 +180,7 @@ impl DocumentBlock {
             DocumentBlock::OrderedList(list) => {
                 let item = list.items.last_mut().unwrap();
 
-                if item.is_empty() {
+                if !matches!(item.last(), Some(DocumentBlock::Para(_))) {
                     item.push(DocumentBlock::Para(Para {
                         line_range: line_range.clone(),
                         inlines: Vec::new(),
@@ -192,7 +192,7 @@ impl DocumentBlock {
             DocumentBlock::BulletList(list) => {
                 let item = list.items.last_mut().unwrap();
 
-                if item.is_empty() {
+                if !matches!(item.last(), Some(DocumentBlock::Para(_))) {
                     item.push(DocumentBlock::Para(Para {
                         line_range: line_range.clone(),
                         inlines: Vec::new(),
